@@ -520,6 +520,10 @@ def run_property(prop, tier, queries, meta):
     seed = int(os.environ.get("VERIF_SEED", "0") or 0)
     jobs = int(os.environ.get("VERIF_JOBS", "0") or 0) or max(1, (os.cpu_count() or 4) - 1)
     known = load_known()
+    uniq = {}
+    for q in queries:
+        uniq.setdefault(q.key(), q)
+    queries = list(uniq.values())
     results = []
     print("[%s/%s] %d queries, %d workers, repo fingerprint %s" % (prop, tier, len(queries), jobs, source_fingerprint()), flush=True)
     qmap = {}
